@@ -39,4 +39,4 @@ require (
 	google.golang.org/protobuf v1.36.6 // indirect
 )
 
-replace github.com/semafind/semadb => /tmp/ag/x2/repo
+replace github.com/semafind/semadb => /repo
